@@ -1,6 +1,11 @@
 import J5V.Pipe.Proofs
 import J5V.Pipe.WalkProofs
 import J5V.Pipe.ListProofs
+import J5V.Pipe.FlattenProofs
+import J5V.Pipe.ListRequestProofs
+import J5V.Pipe.JoinProofs
+import J5V.Pipe.EntityProofs
+import J5V.Pipe.ClientProofs
 import J5V.Pipe.Swagger
 import J5V.Generated.PipeFacts
 /-!
@@ -10,7 +15,9 @@ Only the property theorems (and their non-vacuity examples) live here; lemmas ar
 `J5V/Pipe/Proofs.lean`.
 -/
 namespace J5V.Props.C16
-open J5V.Go J5V.Compile J5V.Pipe
+open J5V.Go J5V.Pipe
+open J5V.Compile (Str toCamel toSnake toLowerCamel toScreamingSnake splitOnByte joinWith pathJoin pathClean
+  hasPrefix hasSuffix trimSuffix)
 
 /-! ## the http path: `:name → {snake}` (compiler) and `{snake} → :jsonName` (structure) -/
 
@@ -248,6 +255,217 @@ theorem C16_chain_no_panic (pkg : Str) (s : ServiceDecl) (hinj : ∀ m ∈ s.met
   | err e => unfold chainService; rw [hc]; simp
   | panic w' => exact absurd hc (compileService_no_panic pkg s w')
 
+/-! ## flattened object fields (`ClientProperties()`) -/
+
+/-- **`ClientProperties()` terminates on every schema graph**, whatever is marked `flatten`
+(an object flattening itself, two objects flattening each other, …): the client view of the whole
+schema set is computed with fuel `|g| + 1` per object and never runs out. -/
+theorem C16_flatten_terminates (g : Graph) : ∃ r, clientGraph g = some r :=
+  Option.isSome_iff_exists.mp (clientNodesFrom_isSome g g 0)
+
+/-- … and is total where the schema reader's output lives (`FlatLinked`: a flattened field refers
+to an object of the set): no error, no panic; the client view has the same schemas (number, order,
+kinds), each property of it is a property of some schema of the set, and resolved references stay
+resolved -/
+theorem C16_flatten_total (g : Graph) (h : FlatLinked g) :
+    ∃ cg, clientGraph g = some (.ok cg) ∧ cg.length = g.length
+      ∧ (∀ c ∈ cg, ∀ p ∈ c.props, ∃ node ∈ g, p ∈ node.props) ∧ (Linked g → Linked cg) := by
+  obtain ⟨cg, hcg, hv⟩ := clientGraph_ok g h
+  exact ⟨cg, hcg, hv.len, hv.props, hv.linked⟩
+
+/-- the list-request walk (`asClient = true`) over the client view: returns its visits from every
+schema, recursive and / or flattened or not -/
+theorem C16_client_walk_ok (g : Graph) (hf : FlatLinked g) (hl : Linked g) (root : Nat)
+    (hroot : root < g.length) : ∃ cg vs, clientGraph g = some (.ok cg) ∧ walk cg root = some (.ok vs) := by
+  obtain ⟨cg, hcg, hv⟩ := clientGraph_ok g hf
+  obtain ⟨vs, hvs⟩ := C16_walk_ok cg (hv.linked hl) root (by rw [hv.len]; exact hroot)
+  exact ⟨cg, vs, hcg, hvs⟩
+
+/-- **Request split with flattened object fields**: path and query parameters are exactly those of
+the unflattened split (`C16_split_partition` applies to them); the body shows, for each body
+property in order, the property itself or — for a flattened object field — the client properties
+of its object; without flattened fields it is the plain split -/
+theorem C16_split_flat (verb : Verb) (path : Str) (props : List ReqProp) :
+    let r := fillRequestFlat verb.hasBody path props
+    let plain := fillRequest verb.hasBody path (props.map (·.name))
+    r.path = plain.path ∧ r.query = plain.query
+    ∧ r.body = (if verb.hasBody then
+        some (bodyNames (props.filter (fun p => !(pathParamNames path).contains p.name))) else none)
+    ∧ ((∀ p ∈ props, p.flat = none) → r = plain) :=
+  ⟨fillRequestFlat_path _ _ _, fillRequestFlat_query _ _ _, fillRequestFlat_body _ _ _,
+    fillRequestFlat_unflat _ _ _⟩
+
+/-! ## `buildListRequest` -/
+
+/-- `buildListRequest` terminates for every schema graph and every response -/
+theorem C16_list_request_terminates (g : Graph) (resp : Option (List Prop')) :
+    ∃ r, buildListRequest g resp = some r :=
+  Option.isSome_iff_exists.mp (buildListRequest_isSome g resp)
+
+/-- full strength: a method whose request has a `j5.list.v1.QueryRequest` property always gets its
+list request, whatever its response looks like. The compiler puts no condition on the response of
+such a method. -/
+def ListRequestFull : Prop :=
+  ∀ (g : Graph) (resp : Option (List Prop')), FlatLinked g → Linked g → NoBadDefaults g →
+    ∃ lr, buildListRequest g resp = some (.ok lr)
+
+/-- false of the code as it is (open finding `client:err:list-response-shape`): a response without
+an array (`response { field name string }`), with two arrays, with an array of scalars, or no
+response body at all compiles, and `j5client.APIFromSource` then refuses the whole API
+(replay: the corpus op `chain foo.v1 0 1 Foo ~ 1 Search GET … query - X j5.list.v1 QueryRequest 1 1 name - str 0 …`).
+The missing response body was a nil pointer dereference before `fix:` d14b8cb. -/
+theorem C16_list_request_counterexample : ¬ ListRequestFull := by
+  intro h
+  obtain ⟨lr, hlr⟩ := h [] (some [{ name := b!"name", field := .scalar }]) (by decide) (by decide) (by decide)
+  have hval : buildListRequest [] (some [{ name := b!"name", field := .scalar }]) = some (.err "no-array-found") := by
+    decide
+  rw [hval] at hlr
+  cases hlr
+
+/-- … and holds for every response that has exactly one array, of objects (`ListShaped`,
+decidable): on a linked schema set the list request is built — no error, no panic — through
+recursive and flattened schemas alike (`NoBadDefaults`: what `C16_list_defaults_accepted` gives for
+everything the compiler accepts) -/
+theorem C16_list_request_partial (g : Graph) (resp : Option (List Prop')) (hs : ListShaped g resp = true)
+    (hf : FlatLinked g) (hl : Linked g) (hb : NoBadDefaults g) :
+    ∃ lr, buildListRequest g resp = some (.ok lr) :=
+  buildListRequest_ok g resp hs hf hl hb
+
+/-- **every collected path resolves in the response item schema**: each filterable / sortable /
+searchable field path of the list request leads, from the item object through the client
+properties of objects and the properties of oneofs, to a property (`Resolves`) -/
+theorem C16_list_request_resolves (g : Graph) (props : List Prop') (lr : ListRequest)
+    (h : buildListRequest g (some props) = some (.ok lr)) :
+    ∃ cg root, clientGraph g = some (.ok cg) ∧ listItemSchema g props = .ok root ∧
+      ∀ path ∈ lr.filter ++ lr.sort ++ lr.search, ∃ f t, Resolves cg root path f t :=
+  buildListRequest_resolves g props lr h
+
+/-! ## entity-generated services -/
+
+/-- **Client API exactness for the services an entity generates** (query service first, then the
+command services in order: `J5V.Compile.Entity.queryService` / `commandService` of the compile
+cluster's model of `sourcewalk/entity.go`): whenever the compiler accepts every generated service,
+the chain turns the entity into exactly those services — `<Entity>QueryService` /
+`<Name>CommandService` with the generated methods in order, each with its verb, base-path-resolved
+path, request split and response. -/
+theorem C16_entity_client_exact (pkg sub : Str) (e : J5V.Compile.Entity)
+    (hinj : ∀ s ∈ entityServiceDecls pkg e, ∀ m ∈ s.methods, SnakeInjective m.req)
+    (hacc : ∀ s ∈ entityServiceDecls pkg e, ∃ d, compileService sub s = .ok d) :
+    mapMOutcome (chainService sub) (entityServiceDecls pkg e)
+      = .ok ((entityServiceDecls pkg e).map declaredService) := by
+  apply mapMOutcome_ok
+  intro s hs
+  obtain ⟨d, hd⟩ := hacc s hs
+  exact C16_client_exact sub s d (hinj s hs) hd
+
+/-- the query service of every entity: `<Entity>Query` under `/<pkg path>/<entity>/q` with
+`<Entity>Get` (request = the primary / shard keys), `<Entity>List` (shard keys, page, query) and
+`<Entity>Events` (keys, page, query), all `GET`, all with a response -/
+theorem C16_entity_query_shape (pkg : Str) (e : J5V.Compile.Entity) :
+    entityQueryDecl pkg e = some
+      { name := toCamel e.name ++ b!"Query", base := some (entityQueryBase pkg e),
+        methods := [entityGetDecl e, entityListDecl e, entityEventsDecl e] }
+    ∧ (entityGetDecl e).req = propNames (J5V.Compile.Entity.getKeys e)
+    ∧ ([entityGetDecl e, entityListDecl e, entityEventsDecl e].all fun m => m.verb = .get ∧ m.hasResp) = true := by
+  refine ⟨entityQueryDecl_eq pkg e, rfl, by simp [entityGetDecl, entityListDecl, entityEventsDecl]⟩
+
+/-- **primary keys are the path parameters**: when no key name contains `/` and the entity's base
+path has no parameter component, the path parameters of `Get` and `Events` (after `path.Join` with
+the base path) are exactly the Get keys, those of `List` the shard keys, in key order — so (by
+`C16_split_partition`) exactly these request properties are path parameters of the client method
+and `page` / `query` are query parameters -/
+theorem C16_entity_key_paths (pkg : Str) (e : J5V.Compile.Entity)
+    (hbase : ∀ c ∈ splitOnByte 47 (entityQueryBase pkg e), paramName? c = none)
+    (hkeys : ∀ k ∈ e.keys, (47 : Nat) ∉ k.prop.name) :
+    let base := some (entityQueryBase pkg e)
+    pathParamNames (resolvedPath base (entityGetDecl e).path) = propNames (J5V.Compile.Entity.getKeys e)
+    ∧ pathParamNames (resolvedPath base (entityListDecl e).path) = propNames (J5V.Compile.Entity.listKeys e)
+    ∧ pathParamNames (resolvedPath base (entityEventsDecl e).path) = propNames (J5V.Compile.Entity.getKeys e) := by
+  have hget : ∀ k ∈ J5V.Compile.Entity.getKeys e, (47 : Nat) ∉ k.name := by
+    intro k hk
+    simp only [J5V.Compile.Entity.getKeys, List.mem_filterMap] at hk
+    obtain ⟨kd, hkd, hsome⟩ := hk
+    have := hkeys kd hkd
+    split at hsome
+    · cases hsome; exact this
+    · split at hsome
+      · cases hsome; exact this
+      · cases hsome
+    · cases hsome
+  have hlist : ∀ k ∈ J5V.Compile.Entity.listKeys e, (47 : Nat) ∉ k.name := by
+    intro k hk
+    simp only [J5V.Compile.Entity.listKeys, List.mem_filterMap] at hk
+    obtain ⟨kd, hkd, hsome⟩ := hk
+    have := hkeys kd hkd
+    split at hsome
+    · split at hsome
+      · cases hsome; exact this
+      · cases hsome
+    · cases hsome
+  have hb := entityQueryBase_ne_nil pkg e
+  refine ⟨?_, ?_, ?_⟩
+  · have := entity_path_params (entityQueryBase pkg e) (J5V.Compile.Entity.getKeys e) [] hb hbase hget
+      (by intro t ht; simp at ht)
+    simpa [entityGetDecl] using this
+  · have := entity_path_params (entityQueryBase pkg e) (J5V.Compile.Entity.listKeys e) [] hb hbase hlist
+      (by intro t ht; simp at ht)
+    simpa [entityListDecl] using this
+  · have := entity_path_params (entityQueryBase pkg e) (J5V.Compile.Entity.getKeys e) [b!"events"] hb hbase hget
+      (by
+        intro t ht
+        simp at ht; subst ht
+        exact ⟨⟨⟨by decide, by decide, by decide⟩, by decide⟩, rfl⟩)
+    simpa [entityEventsDecl] using this
+
+/-! ## schemas of the client API -/
+
+/-- `collectPackageRefs` over the client view terminates for every schema graph and package -/
+theorem C16_client_schemas_terminates (g : Graph) (p : PackageRoots) : ∃ r, clientSchemas g p = some r :=
+  Option.isSome_iff_exists.mp (clientSchemas_isSome g p)
+
+/-- **Every schema reachable from a method or entity is present in the client API**
+(`C16_refs_complete` lifted to the package): for every method of the package — of a declared
+service, of an entity's query service or command services — and every request or response
+property of it, and for every property of an entity's keys, state and event schemas, whatever is
+reachable through object / oneof / enum references (directly, in arrays, in maps; objects seen
+through their client properties) is in the schema set the client API gets. -/
+theorem C16_client_schemas_complete (g cg : Graph) (p : PackageRoots) (s : List Nat)
+    (hcg : clientGraph g = some (.ok cg)) (h : clientSchemas g p = some (.ok s)) :
+    (∀ m ∈ p.methods, ∀ f ∈ m.fields, ∀ n, Reach cg [f] n → n ∈ s)
+    ∧ (∀ e ∈ p.entities, ∀ f ∈ e.keys ++ e.state ++ e.event, ∀ n, Reach cg [f] n → n ∈ s) := by
+  have hall := clientSchemas_complete g cg p s hcg h
+  constructor
+  · intro m hm f hf n hr
+    exact hall n (hr.mono (by
+      intro x hx
+      have hxf : x = f := by simpa using hx
+      rw [hxf]; exact mem_fields_of_method p m hm f hf))
+  · intro e he f hf n hr
+    exact hall n (hr.mono (by
+      intro x hx
+      have hxf : x = f := by simpa using hx
+      rw [hxf]; exact mem_fields_of_entity p e he f hf))
+
+/-- on a `FlatLinked` schema set the schema set is computed (no error, no panic) -/
+theorem C16_client_schemas_total (g : Graph) (p : PackageRoots) (hf : FlatLinked g) :
+    ∃ cg s, clientGraph g = some (.ok cg) ∧ clientSchemas g p = some (.ok s) :=
+  clientSchemas_ok g p hf
+
+/-! ## OpenAPI paths -/
+
+/-- **Path grouping of `BuildSwagger`** (`addMethod`'s loop + `OrderedMap`): for every list of
+operations, every operation is in the document under its own path; no path key occurs twice in
+the `paths` object; a path item holds only operations of its path; nothing is lost or duplicated. -/
+theorem C16_swagger_paths (ops : List SOp) :
+    let items := groupOps ops
+    (∀ o ∈ ops, ∃ item ∈ items, PathItem.key item = o.path ∧ o ∈ item)
+    ∧ (items.map PathItem.key).Nodup
+    ∧ (∀ item ∈ items, item ≠ [] ∧ ∀ o ∈ item, o.path = PathItem.key item)
+    ∧ items.flatten.Perm ops := by
+  obtain ⟨hinv, hmem, hperm⟩ := foldl_addOp_spec ops [] ⟨by simp, by simp, by simp⟩
+  refine ⟨fun o ho => hmem o (Or.inr ho), hinv.nodup, fun item hi => ⟨hinv.nonempty item hi, hinv.same item hi⟩, ?_⟩
+  simpa [groupOps] using hperm
+
 /-! ## Non-vacuity -/
 
 /-- a service with a base path, a parameter whose JSON name is not the protoc default
@@ -297,6 +515,115 @@ example : collect exampleGraph [.object 0] = some [3, 2, 1, 0] := by decide
 example : Reach exampleGraph [.object 0] 3 :=
   .step (.step (.root (f := .object 0) (by simp) rfl (by decide)) ⟨_, rfl, _, by simp [Node.walkProps]; exact Or.inr (Or.inr rfl), rfl, by decide⟩)
     ⟨_, rfl, { name := b!"many", field := .array (.object 3) }, by simp [Node.walkProps], rfl, by decide⟩
+
+/-! ### flatten, list request, client schemas -/
+
+/-- `A { name, self: flatten A, b: flatten B, plain: C }`, `B { bName (searchable), back: flatten A, c: flatten C }`,
+`C { cName (searchable) }`: an object flattening itself, two objects flattening each other, a
+plain nested object -/
+def flatGraph : Graph :=
+  [ { kind := .object, props := [{ name := b!"name", field := .scalar },
+                                 { name := b!"self", field := .object 0, flat := true },
+                                 { name := b!"b", field := .object 1, flat := true },
+                                 { name := b!"plain", field := .object 2 }] },
+    { kind := .object, props := [{ name := b!"bName", field := .scalar, tag := 4 },
+                                 { name := b!"back", field := .object 0, flat := true },
+                                 { name := b!"c", field := .object 2, flat := true }] },
+    { kind := .object, props := [{ name := b!"cName", field := .scalar, tag := 4 }] } ]
+
+example : FlatLinked flatGraph ∧ Linked flatGraph ∧ NoBadDefaults flatGraph := by decide
+/-- the client view: `self` stays a nested object (A is being flattened), `b` expands to B's client
+properties, in which `back` stays nested and `c` expands -/
+example : (clientGraph flatGraph).map (fun o => o.map (fun cg => cg.map (fun n => n.props.map (·.name)))) =
+    some (.ok [[b!"name", b!"self", b!"bName", b!"back", b!"cName", b!"plain"],
+               [b!"bName", b!"name", b!"self", b!"b", b!"plain", b!"cName"],
+               [b!"cName"]]) := by decide
+/-- an unlinked flattened field is the nil dereference of `propType.Schema()` -/
+example : clientGraph [{ kind := .object, props := [{ name := b!"x", field := .object 5, flat := true }] }]
+    = some (.panic "nil-schema") := by decide
+example : ¬ FlatLinked [{ kind := .object, props := [{ name := b!"x", field := .object 5, flat := true }] }] := by
+  decide
+
+/-- list method over `A`: response `{ items: array of A, page: object (unlinked: another package) }` -/
+def flatResponse : List Prop' :=
+  [{ name := b!"items", field := .array (.object 0) }, { name := b!"page", field := .scalar }]
+
+example : ListShaped flatGraph (some flatResponse) = true := by decide
+example : buildListRequest flatGraph (some flatResponse) =
+    some (.ok { filter := [], sort := [], search := [[b!"bName"], [b!"cName"], [b!"plain", b!"cName"]] }) := by
+  decide
+example : buildListRequest flatGraph none = some (.err "no-response-body") := by decide
+example : buildListRequest flatGraph (some [{ name := b!"a", field := .array (.object 0) },
+    { name := b!"b", field := .array .scalar }]) = some (.err "found-multiple-arrays") := by decide
+example : buildListRequest flatGraph (some [{ name := b!"b", field := .array .scalar }])
+    = some (.err "expected-object-schema") := by decide
+example : Resolves flatGraph 0 [b!"plain", b!"cName"] .scalar 4 :=
+  .deeper (p := { name := b!"plain", field := .object 2 }) rfl (by simp [Node.walkProps]) rfl
+    (.leaf (p := { name := b!"cName", field := .scalar, tag := 4 }) rfl (by simp [Node.walkProps]))
+
+example : fillRequestFlat true b!"/as/:x" [{ name := b!"b", flat := some [b!"bName", b!"cName"] }, { name := b!"x" }]
+    = { path := [b!"x"], query := [], body := some [b!"bName", b!"cName"] } := by decide
+
+/-- a package with one declared method and one entity over `flatGraph` -/
+def examplePackage : PackageRoots :=
+  { entities := [{ keys := [.scalar], state := [.object 1], event := [.oneof 7], query := [{ request := [.scalar], response := some [.object 2] }],
+                   commands := [] }],
+    services := [[{ request := [.scalar, .map (.object 2)], response := none }]] }
+
+example : clientSchemas flatGraph examplePackage = some (.ok [2, 0, 1]) := by decide
+example : ∃ cg, clientGraph flatGraph = some (.ok cg) ∧ Reach cg [.object 1] 0 := by
+  obtain ⟨cg, hcg, hv⟩ := clientGraph_ok flatGraph (by decide)
+  refine ⟨cg, hcg, ?_⟩
+  have hcg' : clientGraph flatGraph = some (.ok
+    [ { kind := .object, props := [{ name := b!"name", field := .scalar }, { name := b!"self", field := .object 0, flat := true },
+        { name := b!"bName", field := .scalar, tag := 4 }, { name := b!"back", field := .object 0, flat := true },
+        { name := b!"cName", field := .scalar, tag := 4 }, { name := b!"plain", field := .object 2 }] },
+      { kind := .object, props := [{ name := b!"bName", field := .scalar, tag := 4 }, { name := b!"name", field := .scalar },
+        { name := b!"self", field := .object 0, flat := true }, { name := b!"b", field := .object 1, flat := true },
+        { name := b!"plain", field := .object 2 }, { name := b!"cName", field := .scalar, tag := 4 }] },
+      { kind := .object, props := [{ name := b!"cName", field := .scalar, tag := 4 }] } ]) := by decide
+  rw [hcg'] at hcg
+  cases hcg
+  exact .step (.root (f := .object 1) (by simp) rfl (by decide))
+    ⟨_, rfl, { name := b!"self", field := .object 0, flat := true }, by simp [Node.walkProps], rfl, by decide⟩
+
+/-! ### entities -/
+
+/-- `entity Foo { key fooId key:id62 { primary = true }  key accountId key:id62 (shard)  … }` in `foo.v1`,
+with one command service -/
+def exampleEntity : J5V.Compile.Entity :=
+  { name := b!"Foo", baseUrl := [],
+    keys := [{ prop := .mk b!"fooId" true false (.key .id62 (.ek (.primary true) none) [] false), shard := false },
+             { prop := .mk b!"accountId" false false (.key .id62 .nokey [] false), shard := true }],
+    data := [], statuses := [b!"ACTIVE"], events := [],
+    commands := [{ name := some b!"Foo", basePath := none,
+                   methods := [{ name := b!"CreateFoo", verb := .post, path := b!"/:fooId/create",
+                                 request := some [.mk b!"fooId" true false (.string [] false), .mk b!"name" false false (.string [] false)],
+                                 response := some [] }] }],
+    summaries := [], query := none, nested := [] }
+
+example : (entityServiceDecls b!"foo.v1" exampleEntity).map (·.name) = [b!"FooQuery", b!"FooCommand"] := by decide
+example : (∀ s ∈ entityServiceDecls b!"foo.v1" exampleEntity, ∀ m ∈ s.methods, SnakeInjective m.req)
+    ∧ ∀ s ∈ entityServiceDecls b!"foo.v1" exampleEntity, (compileService b!"foo.v1.service" s).isOk = true := by
+  decide
+/-- … and the client services are what one expects: keys in the path, `page` / `query` in the query -/
+example : ((entityServiceDecls b!"foo.v1" exampleEntity).map declaredService).map
+      (fun s => (s.name, s.methods.map (fun m => (m.name, m.path, m.request)))) =
+    [(b!"FooQueryService",
+       [(b!"FooGet", b!"/foo/v1/foo/q/:fooId/:accountId", { path := [b!"fooId", b!"accountId"], query := [], body := none }),
+        (b!"FooList", b!"/foo/v1/foo/q/:accountId", { path := [b!"accountId"], query := [b!"page", b!"query"], body := none }),
+        (b!"FooEvents", b!"/foo/v1/foo/q/:fooId/:accountId/events",
+          { path := [b!"fooId", b!"accountId"], query := [b!"page", b!"query"], body := none })]),
+     (b!"FooCommandService",
+       [(b!"CreateFoo", b!"/foo/v1/foo/c/:fooId/create", { path := [b!"fooId"], query := [], body := some [b!"name"] })])] := by
+  decide
+example : (∀ c ∈ splitOnByte 47 (entityQueryBase b!"foo.v1" exampleEntity), paramName? c = none)
+    ∧ ∀ k ∈ exampleEntity.keys, (47 : Nat) ∉ k.prop.name := by decide
+
+/-! ### OpenAPI paths -/
+example : groupOps [{ verb := "get", path := b!"/a" }, { verb := "post", path := b!"/b" }, { verb := "put", path := b!"/a" }] =
+    [[{ verb := "get", path := b!"/a" }, { verb := "put", path := b!"/a" }], [{ verb := "post", path := b!"/b" }]] := by
+  decide
 
 end J5V.Props.C16
 
